@@ -101,6 +101,12 @@ func (t *hty) coq() string {
 		return "option Z"
 	case "esnap":
 		return "option " + parenT(t.elem.coq())
+	case "obj":
+		return t.name
+	case "err":
+		return "go_xerr"
+	case "opt":
+		return "option " + parenT(t.elem.coq())
 	case "func":
 		return t.funcCoq("")
 	}
@@ -182,7 +188,9 @@ func (t *hty) mentions(set map[string]bool) {
 		for _, a := range t.args {
 			a.mentions(set)
 		}
-	case "slice", "eptr", "esnap":
+	case "obj":
+		set[t.name] = true
+	case "slice", "eptr", "esnap", "opt":
 		t.elem.mentions(set)
 	case "func":
 		for _, tp := range t.rawTps {
@@ -217,6 +225,7 @@ type hgen struct {
 	externs  map[string]bool   // directive extern:pkg.F: a function of another package as a function argument
 	normText map[string]string // the functions that were normalised before translation (fn_heap_norm.go): their text
 	pointedInto map[string]bool // "S.F": slice fields of cells into whose elements pointers are taken (fn_heap_eptr.go)
+	tx          *htext          // the text extension (directive std:), nil otherwise (fn_heap_text.go)
 }
 
 type hparam struct {
@@ -252,6 +261,8 @@ type hfunc struct {
 	recvNil    bool // the receiver pointer is compared with nil here or in a callee on it: argument <recv>_nil
 	tparams    []string
 	externs    []*hextern // functions of other packages it (or a callee) calls: function arguments
+	recvParam  bool       // the first parameter *V plays the receiver (directive recv:V, fn_heap_textcall.go)
+	givenAway  map[string]bool // object parameters handed to a function of another package: not handed back
 }
 
 type hextern struct {
@@ -292,6 +303,7 @@ type hmodImporter struct {
 	root, mod string
 	done      map[string]*types.Package
 	busy      map[string]bool
+	std       map[string]bool // packages of the standard library read from GOROOT/src (fn_heap_text.go)
 }
 
 func newHmodImporter(dir string) *hmodImporter {
@@ -315,6 +327,9 @@ func newHmodImporter(dir string) *hmodImporter {
 func (im *hmodImporter) Import(path string) (*types.Package, error) {
 	if p := im.done[path]; p != nil {
 		return p, nil
+	}
+	if im.std[path] {
+		return im.importStd(path)
 	}
 	if im.root == "" || !strings.HasPrefix(path, im.mod+"/") || im.busy[path] {
 		return im.fake.Import(path)
@@ -392,7 +407,7 @@ func fnHeapGenerate(f *ast.File, specs []string) (text string, lostMsgs []string
 	}
 	g.info = &types.Info{Types: map[ast.Expr]types.TypeAndValue{}, Defs: map[*ast.Ident]types.Object{}, Uses: map[*ast.Ident]types.Object{},
 		Selections: map[*ast.SelectorExpr]*types.Selection{}, Instances: map[*ast.Ident]types.Instance{}, Implicits: map[ast.Node]types.Object{}}
-	conf := types.Config{Importer: newHmodImporter(dir), Error: func(error) {}}
+	conf := types.Config{Importer: g.textImporter(dir, specs), Error: func(error) {}}
 	g.pkg, _ = conf.Check(f.Name.Name, fset, g.files, g.info)
 	if g.pkg == nil {
 		fail("type check of %s failed", dir)
@@ -417,6 +432,7 @@ func fnHeapGenerate(f *ast.File, specs []string) (text string, lostMsgs []string
 			g.stateful[strings.TrimPrefix(sp, "stateful:")] = true
 		case strings.HasPrefix(sp, "extern:"):
 			g.externs[strings.TrimPrefix(sp, "extern:")] = true
+		case g.textDirective(sp):
 		case strings.Contains(sp, ":"):
 			lostMsgs = append(lostMsgs, "fn "+sp+" lost: directive not supported by the heap backend")
 		default:
@@ -462,7 +478,11 @@ func fnHeapGenerate(f *ast.File, specs []string) (text string, lostMsgs []string
 		g.translate(fn, &emitted)
 	}
 	var b strings.Builder
-	b.WriteString("From Mds Require Import Common.FnRt Common.FnHeap.\nLocal Open Scope Z_scope.\n\n")
+	if g.tx != nil {
+		b.WriteString("From Mds Require Import Common.FnRt Common.FnHeap Common.FnText.\nLocal Open Scope Z_scope.\n\n")
+	} else {
+		b.WriteString("From Mds Require Import Common.FnRt Common.FnHeap.\nLocal Open Scope Z_scope.\n\n")
+	}
 	for _, n := range g.sorder {
 		if s := g.structs[n]; s.emitted {
 			b.WriteString(g.recordText(s))
@@ -558,6 +578,9 @@ func (c *hctx) lostAt(n ast.Node, format string, args ...any) {
 func (g *hgen) structOf(n *types.Named) *hstruct {
 	n = n.Origin()
 	name := n.Obj().Name()
+	if g.isStdNamed(n) {
+		return nil // a type of the standard library is abstract (fn_heap_text.go)
+	}
 	if s, ok := g.structs[name]; ok {
 		return s
 	}
@@ -592,6 +615,7 @@ func (g *hgen) structOf(n *types.Named) *hstruct {
 		s.ftypes = append(s.ftypes, ft)
 		ft.mentions(set)
 	}
+	g.textStructParams(s, set)
 	for _, tp := range s.tps {
 		s.used = append(s.used, set[tp])
 	}
@@ -603,6 +627,9 @@ func (g *hgen) structOf(n *types.Named) *hstruct {
 func (g *hgen) typeOf(t types.Type, at ast.Node) *hty {
 	if t != nil {
 		t = types.Unalias(t)
+	}
+	if r := g.textTypeOf(t, at); r != nil {
+		return r
 	}
 	switch v := t.(type) {
 	case *types.Basic:
@@ -1026,9 +1053,15 @@ func (c *hctx) useStruct(s *hstruct, at ast.Node) {
 	s.emitted = true // set first: a struct that (through a slice or value field) contains its own type must not recurse forever
 	for i, ft := range s.ftypes {
 		switch ft.k {
-		case "int", "bool", "elem", "str", "hptr", "struct", "unit", "slice":
+		case "int", "bool", "elem", "str", "hptr", "struct", "unit", "slice", "obj", "err", "opt":
 			if ft.k == "struct" {
 				c.useStruct(ft.st, at)
+			}
+			if (ft.k == "opt" || ft.k == "slice") && ft.elem.k == "opt" && ft.elem.elem.k == "struct" {
+				c.useStruct(ft.elem.elem.st, at)
+			}
+			if ft.k == "opt" && ft.elem.k == "struct" {
+				c.useStruct(ft.elem.st, at)
 			}
 			if ft.k == "slice" && ft.elem.k == "struct" {
 				c.useStruct(ft.elem.st, at)
@@ -1074,15 +1107,25 @@ func (c *hctx) function() {
 		c.used["h"] = true
 		c.heap = &hvar{name: "h", typ: &hty{k: "heap"}, role: "heap", idx: 1 << 30} // sorted last: the heap closes every state tuple
 	}
-	// ---- receiver
-	if r := sig.Recv(); r != nil {
+	// ---- receiver (or the first parameter *V of a directive recv:V, which plays the receiver)
+	r := sig.Recv()
+	var recvIdent *ast.Ident
+	if r != nil && len(fd.Recv.List[0].Names) == 1 {
+		recvIdent = fd.Recv.List[0].Names[0]
+	}
+	if r == nil {
+		r, recvIdent = c.textRecvParam(sig, fd)
+	}
+	c.checkOptStores()
+	c.scanGivenAway()
+	if r != nil {
 		n := namedOf(r.Type())
 		s := g.structOf(n)
 		if s == nil {
 			c.lostAt(fd, "receiver type %s", r.Type().String())
 		}
-		if len(fd.Recv.List[0].Names) == 1 {
-			c.recvObj = g.info.Defs[fd.Recv.List[0].Names[0]]
+		if recvIdent != nil {
+			c.recvObj = g.info.Defs[recvIdent]
 		}
 		if s.cell || s.wrapper != "" {
 			if _, isPtr := r.Type().(*types.Pointer); !isPtr {
@@ -1152,6 +1195,9 @@ func (c *hctx) function() {
 	c.cbState = map[*hvar]*hvar{}
 	for i := 0; i < sig.Params().Len(); i++ {
 		pv := sig.Params().At(i)
+		if i == 0 && fn.recvParam {
+			continue // plays the receiver
+		}
 		if pv.Name() == "_" || pv.Name() == "" {
 			// never used: no argument
 			fn.params = append(fn.params, &hparam{goName: "_"})
@@ -1276,7 +1322,7 @@ func (c *hctx) zeroOf(t *hty, at ast.Node) string {
 		return "[]"
 	case "unit":
 		return "tt"
-	case "hptr":
+	case "hptr", "err", "opt":
 		return "None"
 	case "elem":
 		z := c.zeros[t.name]
@@ -1376,6 +1422,7 @@ func (c *hctx) retVars() []*hvar {
 	for _, f := range c.fn.mutFields {
 		vs = append(vs, c.fields[f])
 	}
+	vs = append(vs, objParams(c.fn)...) // objects are handed back (fn_heap_textcall.go)
 	for _, p := range c.fn.params {
 		if p.st != nil {
 			vs = append(vs, p.st)
